@@ -449,44 +449,47 @@ static void everywhere_case(uint64_t idx, void *vctx)
     }
 }
 
-/* ---------------------------------------------------------------- depth 3 from the initial state, every draw pattern */
-static void depth3_case(uint64_t idx, void *vctx)
+/* ---------------------------------------------------------------- depth k from the initial state, listed draw patterns */
+/* pattern bit 0: draw before the first setter; bit i (1 <= i < k): draw after the i-th setter; the end is always drawn and judged */
+typedef struct { space_t *sp; int depth; int npat; const uint8_t *pats; } depth_t;
+static void depth_case(uint64_t idx, void *vctx)
 {
-    space_t *sp = vctx;
-    int dims[5] = { sp->ntrans, sp->ntrans, sp->ntrans, 8, sp->ncfg }, d[5];
-    vf_decode(idx, dims, 5, d);
-    int kind = sp->kind; int pat = d[3];    /* bit 0: draw before the first setter; bit 1: after the first; bit 2: after the second; the end is always drawn and judged */
-    aux_init(); ph_set_cfg(sp->cfgs[d[4]]); flush_cache();
-    step_t st[3];
-    for (int k = 0; k < 3; k++) { trans_t t = sp->trans[d[2 - k]]; int draw = k == 2 || (pat >> (k + 1) & 1); st[k] = (step_t){ t.f, t.v, (uint8_t)draw, (uint8_t)draw }; }
-    static probe_t last; static verdict_t vd; char hist[700]; int changed = 0;
+    depth_t *dc = vctx; space_t *sp = dc->sp; int K = dc->depth;
+    int dims[8], d[8];
+    for (int k = 0; k < K; k++) dims[k] = sp->ntrans;
+    dims[K] = dc->npat; dims[K + 1] = sp->ncfg;
+    vf_decode(idx, dims, K + 2, d);
+    int kind = sp->kind; int pat = dc->pats[d[K]];
+    aux_init(); ph_set_cfg(sp->cfgs[d[K + 1]]); flush_cache();
+    step_t st[6];
+    for (int k = 0; k < K; k++) { trans_t t = sp->trans[d[K - 1 - k]]; int draw = k == K - 1 || (pat >> (k + 1) & 1); st[k] = (step_t){ t.f, t.v, (uint8_t)draw, (uint8_t)draw }; }
+    static probe_t last; static verdict_t vd; char hist[900]; int changed = 0;
     vd.failed = 0;
-    if (!exec_history(kind, pat & 1, st, 3, 0, "in a length-3 history from a new image", &vd, &last, &changed, hist, sizeof hist)) vf_violation(vd.key, "%s", vd.text);
+    if (!exec_history(kind, pat & 1, st, K, 0, "in a history from a new image", &vd, &last, &changed, hist, sizeof hist)) vf_violation(vd.key, "%s", vd.text);
     if (vf_verbose) printf("  history: %s\n", hist);
     if (!vf_in_confirm) {
-        vf_count_eval(1); vf_count_transitions(3); if (changed) vf_count_nontrivial(1);
+        vf_count_eval(1); vf_count_transitions((uint64_t)K); if (changed) vf_count_nontrivial(1);
         vf_outcome(vf_hash64(last.out, sizeof last.out, (uint64_t)kind + 16));
         vf_count_libcalls(ncomposites); ncomposites = 0;
-        if (vf_want_sample() && changed && pat == 5 && idx % 7919 == 11) vf_sample("depth3 %s: %s -> all judged probes equal to fresh replicas", KINDN[kind], hist);
+        if (vf_want_sample() && changed && pat == 5 && idx % 7919 == 11) vf_sample("depth%d %s: %s -> all judged probes equal to fresh replicas", K, KINDN[kind], hist);
     }
 }
 
-/* distinct abstract states reachable by <= 3 setters (pure model, parent side) */
-static uint64_t depth3_states(const space_t *sp)
+/* distinct abstract states (parent side, pure model): a set of (kind, state id) */
+static uint64_t *stset; static uint64_t stset_n;
+#define STSET_BITS 22
+static void stset_add(int kind, const ast_t *m)
 {
-    uint64_t *seen = calloc(1 << 20, sizeof *seen); uint64_t n = 0;
-    for (int a = -1; a < sp->ntrans; a++) for (int b = -1; b < sp->ntrans; b++) for (int c = -1; c < sp->ntrans; c++) {
-        if ((a < 0 && (b >= 0 || c >= 0)) || (b < 0 && c >= 0)) continue;
-        ast_t m; memset(&m, 0, sizeof m);
-        if (a >= 0) m.v[sp->trans[a].f] = sp->trans[a].v;
-        if (b >= 0) m.v[sp->trans[b].f] = sp->trans[b].v;
-        if (c >= 0) m.v[sp->trans[c].f] = sp->trans[c].v;
-        uint64_t id = state_id(&m) + 1, h = vf_mix(id, 77) & ((1 << 20) - 1);
-        while (seen[h] && seen[h] != id) h = (h + 1) & ((1 << 20) - 1);
-        if (!seen[h]) { seen[h] = id; n++; }
-    }
-    free(seen);
-    return n;
+    if (!stset) stset = calloc((size_t)1 << STSET_BITS, sizeof *stset);
+    uint64_t id = (state_id(m) << 3 | (uint64_t)kind) + 1, h = vf_mix(id, 77) & (((uint64_t)1 << STSET_BITS) - 1);
+    while (stset[h] && stset[h] != id) h = (h + 1) & (((uint64_t)1 << STSET_BITS) - 1);
+    if (!stset[h]) { stset[h] = id; stset_n++; }
+}
+static void reach_rec(const space_t *sp, ast_t m, int left)
+{
+    stset_add(sp->kind, &m);
+    if (!left) return;
+    for (int t = 0; t < sp->ntrans; t++) { ast_t n = m; n.v[sp->trans[t].f] = sp->trans[t].v; if (left == 1) stset_add(sp->kind, &n); else reach_rec(sp, n, left - 1); }
 }
 
 int main(int argc, char **argv)
@@ -504,7 +507,7 @@ int main(int argc, char **argv)
               "dither offset, palette); transition = one pixman_image_set_* call with one value. 'everywhere-*' spaces: every state of the stated universe is built on a long-lived image by one setter per "
               "non-default field with a draw (the 7 probes = 7 distinct fast-path cache keys, all still resident in the 8-entry cache when the same composite recurs after the next setter) after every setter, then every transition is applied and the image probed (as source SRC, as "
               "source OVER, as mask, as destination OVER, as destination masked ATOP with storage and alpha map read back raw, as source and as mask with the request inside the image) twice; 'depth3-*' spaces: every setter sequence of length 3 from a new image with "
-              "every draw/no-draw pattern, judged at every draw and at the end. Oracle: byte equality with the same probes of a freshly created image that received each non-default property of the final "
+              "every draw/no-draw pattern, judged at every draw and at the end (thorough: also length 4 on the a8r8g8b8 image with 4 draw patterns). Oracle: byte equality with the same probes of a freshly created image that received each non-default property of the final "
               "abstract state once, in another fixed order, and was never drawn before; plus the library's own fields must hold the abstract state. transitions = setter applications judged; states = distinct "
               "abstract states (universe sizes + states reachable in <= 3 setters); non-trivial = the judged setter changed at least one probe's output relative to the draw before it.";
     vf_assume("the accessor callbacks are deterministic xor-1 read/write functions (not the identity, so a stale direct-memory fetcher shows); pixel storage is restored after destination probes");
@@ -512,12 +515,12 @@ int main(int argc, char **argv)
     vf_assume("each history, its draws and its probes run in one process under one PIXMAN_DISABLE configuration ({none, wholeops}); the fast-path cache is flushed at the start of each case for determinism");
 
     static space_t SP[16]; int nsp = 0;
-    uint64_t universe_states = 0, d3_states = 0;
+    uint64_t universe_states = 0;
     char label[64];
     /*                           XF FIL REP CLIP CSRC CCL AMAP CA ACC DITH DOFF PAL */
     static const int U_ARGB_Q[NFIELDS] = { 5, 4, 4, 3, 2, 1, 3, 2, 2, 1, 1, 1 };     /*  5 760: client_clip tied to clip_sources (both off / both on) */
     static const int U_ARGB_T[NFIELDS] = { 5, 4, 4, 3, 2, 2, 3, 2, 2, 2, 1, 1 };     /* 23 040 */
-    static const int U_565_T[NFIELDS]  = { 5, 2, 4, 2, 2, 1, 3, 1, 2, 3, 2, 1 };     /*  2 880, CSRC only together with client clip (set below) */
+    static const int U_565_T[NFIELDS]  = { 5, 2, 4, 2, 2, 1, 3, 1, 2, 3, 2, 1 };     /*  5 760, client_clip tied to clip_sources (set below) */
     static const int U_C8[NFIELDS]     = { 5, 2, 4, 2, 1, 1, 2, 1, 2, 2, 1, 2 };     /*  1 280 */
     static const int U_GRAD[NFIELDS]   = { 5, 2, 4, 3, 2, 2, 1, 2, 1, 1, 1, 1 };     /*    960 */
     struct { int kind; const int *u; int variants; } plan[8]; int np = 0;
@@ -539,17 +542,31 @@ int main(int argc, char **argv)
         universe_states += (uint64_t)sp->nstates;
         bl += snprintf(bounds + bl, sizeof bounds - bl, "%s%s: %d states x %d transitions x %d construction variant(s) x 2 cfgs", i ? "; " : "everywhere: ", KINDN[sp->kind], sp->nstates, sp->ntrans, sp->nvariants);
     }
+    static const uint8_t PAT3[8] = { 0, 1, 2, 3, 4, 5, 6, 7 };
+    static const uint8_t PAT4[4] = { 0, 15, 5, 10 };      /* no intermediate draws / a draw after every setter / alternating */
+    static depth_t DC[16]; int ndc = 0;
     for (int i = 0; i < np; i++) {
         space_t *sp = &SP[i];
+        depth_t *dc = &DC[ndc++]; dc->sp = sp; dc->depth = 3; dc->npat = 8; dc->pats = PAT3;
         snprintf(label, sizeof label, "depth3-%s", KINDN[sp->kind]);
         uint64_t N = (uint64_t)sp->ntrans * sp->ntrans * sp->ntrans * 8 * sp->ncfg;
-        vf_space_run(label, N, depth3_case, sp);
-        d3_states += depth3_states(sp);
+        vf_space_run(label, N, depth_case, dc);
+        ast_t z; memset(&z, 0, sizeof z); reach_rec(sp, z, 3);
+        for (int k = 0; k < sp->nstates; k++) stset_add(sp->kind, &sp->states[k]);
         bl += snprintf(bounds + bl, sizeof bounds - bl, "%s%s: %d^3 sequences x 8 draw patterns x 2 cfgs", i ? "; " : " || depth3: ", KINDN[sp->kind], sp->ntrans);
     }
-    if (!vf_replaying()) vf_count_states(universe_states + d3_states);
-    snprintf(vf->extra_json, sizeof vf->extra_json, "\"universe_states\": %llu, \"states_reachable_within_3_setters\": %llu, \"composites_executed\": %llu",
-             (unsigned long long)universe_states, (unsigned long long)d3_states, (unsigned long long)vf->libcalls);
+    if (th) {
+        space_t *sp = &SP[0];
+        depth_t *dc = &DC[ndc++]; dc->sp = sp; dc->depth = 4; dc->npat = 4; dc->pats = PAT4;
+        snprintf(label, sizeof label, "depth4-%s", KINDN[sp->kind]);
+        uint64_t N = (uint64_t)sp->ntrans * sp->ntrans * sp->ntrans * sp->ntrans * 4 * sp->ncfg;
+        vf_space_run(label, N, depth_case, dc);
+        ast_t z; memset(&z, 0, sizeof z); reach_rec(sp, z, 4);
+        bl += snprintf(bounds + bl, sizeof bounds - bl, " || depth4: %s: %d^4 sequences x 4 draw patterns x 2 cfgs", KINDN[sp->kind], sp->ntrans);
+    }
+    if (!vf_replaying()) vf_count_states(stset_n);
+    snprintf(vf->extra_json, sizeof vf->extra_json, "\"universe_states\": %llu, \"distinct_abstract_states_universe_plus_reachable_from_init\": %llu, \"composites_executed\": %llu",
+             (unsigned long long)universe_states, (unsigned long long)stset_n, (unsigned long long)vf->libcalls);
     vf_bounds = bounds;
     return vf_finish();
 }
